@@ -1388,7 +1388,9 @@ class Wallet(object):
                 else:
                     try:
                         if isinstance(key, WalletKey):
-                            key = key._hdkey_object
+                            # the cached HDKey object is only there once key() has been called (it is not after
+                            # opening a wallet); without it a wallet with a new random master key would be created
+                            key = key.key()
                         else:
                             key = HDKey(key, password=password, witness_type=witness_type, network=network)
                     except BKeyError:
